@@ -301,7 +301,7 @@ def rerunFor (st : St) (ks : Keyed.KState) (texts : List (Nat × Nat)) (keys : L
   let nb := ks'.w.log.builds.length
   let lis := List.range' st.next nb
   let texts' := texts.filter (fun p => ks'.w.kids.contains p.1) ++ lis.zip (List.range' ks'.w.next nb)
-  let delta := ks'.w.log.unmounts.length + nb + 2 * (Keyed.domMovedKeys frm keys).length
+  let delta := ks'.w.log.unmounts.length + nb + 2 * (Keyed.domMovedKeys Keyed.diff frm keys).length
   (ks', texts', { st with next := ks'.w.next + nb }, delta)
 
 def rerunAttr (e : Nat) (v : Int) : AState → AState × Nat
